@@ -60,6 +60,10 @@ def as_found_models(wd):
     r = C.model_check("ModeMC", md.replace("AsFoundM = {}", 'AsFoundM = {"CbKeepsMode"}'), os.path.join(wd, "af-mode"), workers=4, xmx="4g", timeout=900)
     expect("ModeMC with a content block that keeps its caller's mode (seeded change C04-C) violates InvBreakSafety",
            (not r["ok"]) and "Invariant InvBreakSafety is violated" in r["out"])
+    for unit, want in ((2, True), (4, False)):
+        r = C.model_check("ItemMC", beh.ITEM_CFG % (2, 4, unit, "FALSE", "InvNestingInline"), os.path.join(wd, "af-item-%d" % unit),
+                          workers=2, xmx="2g", timeout=600)
+        expect("ItemMC: `- - a` shapes keep their nesting at unit 2, not at unit 4 (recorded defect G04) [unit %d]" % unit, r["ok"] == want)
     cm = beh.COMMENT_CFG % (2, "0, 1, 3, 6", 16, 2, "FALSE", "InvConvergence")
     r = C.model_check("CommentMC", cm.replace("AsFoundC = {}", 'AsFoundC = {"S03A"}'), os.path.join(wd, "af-cmt"),
                       workers=4, xmx="4g", timeout=900)
